@@ -981,11 +981,12 @@ def run(tier: str) -> int:
     replay_corpus(ck, ftrun)
     r = rng("c19")
     n_unit = 20000 if tier == "quick" else 300000
-    n_e2e = 300 if tier == "quick" else 6000
+    n_e2e = 260 if tier == "quick" else 6000
+    n_hist = 110 if tier == "quick" else 2500
     run_unit(ck, drv, ftrun, r, n_unit)
     run_unit_verdicts(ck, drv, ftrun, rng("c19-verdicts"), n_unit // 4)
     run_e2e(ck, drv, rng("c19-e2e"), n_e2e)
-    run_histories(ck, drv, rng("c19-history"), n_e2e // 2)
+    run_histories(ck, drv, rng("c19-history"), n_hist)
     if tier == "thorough":
         ck.leanchecker()
 
